@@ -354,6 +354,16 @@ func (n *Node) monPreBlockCertificate(b *PreBlock) {
 		return
 	}
 	r := req.GetPrepareRequest()
+	if len(b.txs) != len(b.txHashes) {
+		w.violate("C02", "C02/preblock-transactions-incomplete", n, "processed pre-block lacks transactions")
+	} else {
+		for i, t := range b.txs {
+			if t == nil || t.Hash() != b.txHashes[i] {
+				w.violate("C02", "C02/preblock-transactions-order", n, "processed pre-block's transactions are not the proposed ones in order (nil or foreign entry)")
+				break
+			}
+		}
+	}
 	if !slices.Equal(b.txHashes, r.TransactionHashes()) || b.ts != r.Timestamp() || b.nonce != r.Nonce() || (!n.ledgerAhead && (b.index != n.height+1 || b.prev != n.tip)) {
 		w.violate("C02", "C02/preblock-differs-from-proposal", n, "pre-block does not carry the proposal / extend the tip")
 	}
